@@ -279,13 +279,15 @@ class PythonExpr(TalesExpr):
 
 
 class ImportExpr:
-    re_dotted = re.compile(r'^[A-Za-z.]+$')
+    re_dotted = re.compile(r'^[^\W\d]\w*(\.[^\W\d]\w*)*$')
 
     def __init__(self, expression) -> None:
         self.expression = expression
 
     def __call__(self, target, engine):
         string = self.expression.strip().replace('\n', ' ')
+        if self.re_dotted.match(string) is None:
+            raise ExpressionError("Not a dotted name.", string)
         value = template(
             "RESOLVE(NAME)",
             RESOLVE=Symbol(resolve_dotted),
